@@ -1,19 +1,34 @@
-"""Prints the markdown table 'which checks catch which seeded changes' from seeded/*/meta.json."""
+"""Prints the markdown table 'which checks catch which seeded changes' from seeded/*/meta.json
+(verdicts recorded by tools/run_seeded.py under "last_run" or by tools/run_seeded_matrix.py under
+"own_quick" / "matrix")."""
 import glob, json, os
 VERIF = os.path.normpath(os.path.join(os.path.dirname(os.path.abspath(__file__)), ".."))
 rows = []
 for m in sorted(glob.glob(os.path.join(VERIF, "seeded", "*", "meta.json"))):
     d = json.load(open(m))
     sid = os.path.basename(os.path.dirname(m))
+    prop = d["property"]
     lr = d.get("last_run", {})
-    chk = lr.get("checks", {}).get(d["property"], {})
+    chk = lr.get("checks", {}).get(prop, {})
     rep = chk.get("replay") or {}
     case = json.dumps(rep.get("case"))[:90] if rep else ""
-    rows.append(f"| {sid} | {d['property']} | {d.get('summary','')[:110]} | {d.get('needs','')[:90]} | "
-                f"{'yes' if lr.get('tests_pass_with_change') else 'NO'} | "
-                f"{'caught' if lr.get('caught_by_own_property_check') else 'MISSED'}"
-                f"{' (failing input)' if lr.get('caught_with_failing_input') else ''} | {case} | "
-                f"{', '.join(lr.get('also_caught_by', []))} |")
+    own = None
+    for src in (d.get("own_quick"), d.get("matrix")):
+        if isinstance(src, dict) and prop in src:
+            own = src[prop]
+    if own is not None:          # the most recent verdict, from a scratch worktree
+        caught, with_input = own["exit"] == 1, own["exit"] == 1 and not own["no_input"]
+    else:
+        caught, with_input = lr.get("caught_by_own_property_check"), lr.get("caught_with_failing_input")
+    also = lr.get("also_caught_by", [])
+    if isinstance(d.get("matrix"), dict) and "error" not in d["matrix"]:
+        also = [p for p, r in d["matrix"].items() if p != prop and r["exit"] == 1]
+    green = lr.get("tests_pass_with_change", d.get("tests_green", True))
+    rows.append(f"| {sid} | {prop} | {d.get('summary','')[:110]} | {d.get('needs','')[:90]} | "
+                f"{'yes' if green else 'NO'} | "
+                f"{'caught' if caught else 'MISSED'}"
+                f"{' (failing input)' if with_input else ''} | {case} | "
+                f"{', '.join(also)} |")
 print("| id | property | change | needs | tests green | own check | replay case | also caught by |")
 print("|---|---|---|---|---|---|---|---|")
 print("\n".join(rows))
